@@ -191,6 +191,12 @@ def run(tier: str, seed: int, t0: float) -> int:
                     continue
                 invert_events(b, rd, di, st)
         jobs.append(("Trace_Doc", b, f"T invert[{name}]"))
+    # ---- T: the Transform operations of the repository's own test-suite, each as a one-operation session
+    from .. import suitetrace
+    sjobs, note = suitetrace.sessions_of_calls()
+    stats.notes.append(note)
+    for sb, swhat in sjobs:
+        jobs.append(("Trace_Transform", sb, swhat))
     vs = trace.validate_many(jobs, stats)
     for (mod, b, what), verdicts in zip(jobs, vs):
         for e in b.events:
